@@ -198,6 +198,9 @@ func (e *ExecutorEngine) handleNonSubscriptionOperation(ctx context.Context, id 
 	defer e.bufferPool.Put(buf)
 
 	err := executor.Execute(buf)
+	// The operation is over: release its id before the terminal message is written,
+	// a client that has received it may re-use the id at once.
+	e.subCancellations.Cancel(id)
 	if err != nil {
 		e.logger.Error("subscription.Handle.handleNonSubscriptionOperation()",
 			abstractlogger.Error(err),
